@@ -6,7 +6,7 @@ V = os.path.dirname(os.path.abspath(__file__))
 
 CLAIMED = {
  "C01": ("The real verifyConsensusFieldMain -> VrfVerifyPriority -> verifyVotes (BLS branch) on an arbitrary decoded header over a symbolic two-validator look-back set with signature / VRF / seat / quorum oracles: acceptance implies the mathematical weight of distinct eligible signers with protocol-valid sortition reaches the protocol's quorum, and the proposer credential used the protocol's threshold.",
-         "Trusted: gosym, z3; crypto idealised; two validators, up to two votes, EnableBls; certificate branch outside. Two open known findings (header-chosen thresholds, voter eligibility).",
+         "Trusted: gosym, z3; crypto idealised; two validators, up to two votes (three in zzH_C01_votes3), EnableBls; certificate branch outside. Two open known findings (header-chosen thresholds, voter eligibility).",
          "solver-based symbolic execution of go/ssa (bv) with uninterpreted crypto oracles"),
  "C02": ("Bounded symbolic history (vote attempts with symbolic kind/round/index, context changes, crash+restart on the same database) over the real VoteDB code; a ghost list of signed votes decides 'at most one per kind, round, index'; the real Voter.vote over it with every database write a possible kill point: at most one vote of a kind leaves the node per round and index.",
          "Trusted: gosym, z3; signatures and RLP of VoteItem idealised (native replay uses the real ones); rounds do not go back across restarts; history length 4/5.",
@@ -18,9 +18,9 @@ CLAIMED = {
          "Trusted: gosym, z3 (FloatingPoint + UF). NOT covered (the numeric heart): that gonum's float64 incomplete-beta CDF is the binomial CDF, float rounding, stakes beyond the small bound. One open known finding (zero-seat proposer).",
          "solver-based symbolic execution of go/ssa with uninterpreted monotone CDF"),
  "C05": ("Real processDoubleSignV5/doPenalize/takePenalty on the real StateDB with an arbitrary well-typed evidence and BLS idealised behind the repo's interfaces with a signing oracle (honest: at most one hash per vote kind per round/index): honest safety, equivocation penalised once within the fraction and credited to the penalty account, takePenalty cap/conservation/non-negativity/consistency with delegations and pending withdrawals.",
-         "Trusted: gosym, z3; BLS idealisation; one validator in the look-back set, two pairs. Re-inclusion of one evidence in two blocks is penalised at most once. Two open known findings (duplicate pair, cross-kind).",
+         "Trusted: gosym, z3; BLS idealisation; one validator in the look-back set, two pairs. Re-inclusion of one evidence in two blocks is penalised at most once; an evidence is acted on wherever it stands in a block's list. Two open known findings (duplicate pair, cross-kind).",
          "solver-based symbolic execution of go/ssa (SMT Int mode) with uninterpreted signing oracle"),
- "C06": ("End-of-block staking kernels only: rewardsToPool, distributeRewards and the validator pass slashingAndRecoveringYouV5 (state and order of emitted logs) give the same result under every Go map / sync.Map iteration order; builder and importing node execute transactions with the same beneficiary (self-composition on a Copy, executor forks over all orders); builder slashing vs importing node's replaySlashing of the written slash data for an arbitrary double-sign evidence.",
+ "C06": ("End-of-block staking kernels only: rewardsToPool, distributeRewards and the validator pass slashingAndRecoveringYouV5 (state and order of emitted logs) give the same result under every Go map / sync.Map iteration order; builder and importing node execute transactions with the same beneficiary and act on several confirmed evidences in the same order (self-composition on a Copy, executor forks over all orders); builder slashing vs importing node's replaySlashing of the written slash data for an arbitrary double-sign evidence.",
          "Trusted: gosym, z3, StateDB.Copy (C10). NOT covered: whole-block determinism through EVM, RLP, tries, receipts, caches. One open known finding (zero-penalty expulsion not replayed).",
          "solver-based symbolic execution of go/ssa with map-order permutation and self-composition"),
  "C07": ("One inductive step per end-of-block value-moving kernel (blockRewards+rewardsToPool, distributeRewards, settleValidatorRewards, processWithdrawQueue) with a ghost sum over balances, reward accounts, role pools, residue, pending withdrawals and the block's fees; penalties are in C05, fee charging in C17 (whose staking-converter contract harness - reported gas = consumed gas - also runs here); the four value-moving take-effect handlers of staking actions conserve stake + withdraw queue + balances.",
@@ -32,8 +32,8 @@ CLAIMED = {
  "C09": ("Real Snapshot/RevertToSnapshot/Finalise/journal over a fake trie: every operation sequence of the bound follows a snapshot-stack model with both revision lists exact; mutate-then-revert restores every account and validator observable from an arbitrary small pre-state; a reverted frame leaves no trace in the committed content either (twin runs over a snapshot store, content reopened from the committed roots).",
          "Trusted: gosym, z3; roots after revert (hashing) outside; sequences of 6/7 operations, 2 accounts, 2 validators, 2 withdraw records.",
          "solver-based symbolic execution of go/ssa (bv + Int), bounded sequences and one-step inverse"),
- "C10": ("Copy half: a fresh StateDB.Copy is observationally equal to the original and one arbitrary mutation of either side never shows on the other (exact object identity in the executor); ValidatorIndex.List ordering for all sync.Map iteration orders. Reopen half: after arbitrary writes (accounts, storage, code; validators, delegation, withdraw queue) with transaction ends, intermediate roots and commits at arbitrary positions, the state reopened from the committed roots shows the live object's persistent content and that of a twin run that flushed only once.",
-         "Trusted: gosym, z3; snapshot store behind the repo's Trie/Database interfaces (a root identifies the flushed content; 'same content => same root' rests on C13/C14); the codec is modelled as the identity on whole objects (fields dropped by custom EncodeRLP/DecodeRLP outside); EIP-158 view of existence.",
+ "C10": ("Copy half: a fresh StateDB.Copy is observationally equal to the original and one arbitrary mutation of either side never shows on the other (exact object identity in the executor); ValidatorIndex.List ordering for all sync.Map iteration orders. Reopen half: after arbitrary writes (accounts, storage, code; validators, delegation, withdraw queue) with transaction ends, intermediate roots and commits at arbitrary positions, the state reopened from the committed roots shows the live object's persistent content and that of a twin run that flushed only once (the work may continue on a Copy taken at a transaction boundary); staking records of a copy are equal and independent.",
+         "Trusted: gosym, z3; snapshot store behind the repo's Trie/Database interfaces (a root identifies the flushed content; 'same content => same root' rests on C13/C14); the codec is modelled as the identity on whole objects (fields dropped by custom EncodeRLP/DecodeRLP outside); EIP-158 view of existence. One open known finding (a copy taken mid-transaction does not finalise a pending self-destruct).",
          "solver-based symbolic execution of go/ssa (SMT Int mode) with map-order permutation"),
  "C12": ("Inductive step over the real VerifyYouVersionState with ghost state from every invariant-satisfying header and every valid 3-version parameter table (all symbolic); builder ProcessYouVersionState subset of verifier; chains of 3/4 headers through the real chain-level VerifyYouVersionState2 with the ghost computed from the history (no invariant assumed); VersionForRoundWithParents reads the parameters of the header 8 rounds back without leaving the batch.",
          "Trusted: gosym, z3; parameter tables restricted to the stated validity predicate; numbers < 2^40. One open known finding (late approval).",
@@ -44,7 +44,7 @@ CLAIMED = {
  "C14": ("Primitive layer: every byte string of the stated lengths through rlp.Split*/CountValues/readKind/readSize and Stream.Bytes/Uint/Raw/List; accept => canonical against an independent Yellow-Paper encoder; encoder heads for every 64-bit size; allocation bounded by input; the reflect-facing leaf decoders/writers (big.Int, uint64, []byte, string, bool) and the rlp:\"nil\" optional-pointer decoder on a minimal reflect model; the consensus layer's entry points accept exactly one RLP value (codec entry points by contract over the real rlp.Split).",
          "Trusted: gosym incl. its minimal reflect model, z3. NOT covered: struct/list decoders, the type cache, custom EncodeRLP/DecodeRLP pairs and the other handlers built on them. One open known finding (nil tag accepts the empty list).",
          "solver-based symbolic execution of go/ssa (bv) over fully symbolic byte buffers"),
- "C15": ("Each computational opcode's real execute function (from the real Istanbul jump table) on arbitrary 256-bit operands with sentinel, shared intPool and aliasing checks; oracle = SMT-LIB 256-bit BV theory, or Yellow-Paper integer definitions (DIV/SDIV/MOD/SMOD/ADDMOD/MULMOD/EXP).",
+ "C15": ("Each computational opcode's real execute function (from the real Istanbul jump table) on arbitrary 256-bit operands with sentinel, shared intPool and aliasing checks; oracle = SMT-LIB 256-bit BV theory, or Yellow-Paper integer definitions (DIV/SDIV/MOD/SMOD/ADDMOD/MULMOD/EXP); EXP's dynamic gas = 10 + 50 per exponent byte.",
          "Trusted: gosym incl. its big.Int model (520-bit two's complement / SMT Int), z3; EXP: full width for exponents <= 7/15, modulo 2^8 for sparse multi-limb exponents (2/3 limbs); memory/storage opcodes outside.",
          "solver-based symbolic execution of go/ssa, equivalence against bit-vector / integer specifications"),
  "C16": ("One call frame = the inductive step over call depth: real Call/CallCode/DelegateCall/StaticCall/create against a recording fake of vm.StateDB with the callee replaced by an arbitrary outcome: snapshot before every mutation, revert-to-that-snapshot last on failure, all gas burnt unless REVERT, refusals touch nothing and return the gas; one CALL-family instruction's gas forwarding and the frame-local static flag through the real interpreter; the real interpreter loop in read-only mode over all 256 opcode bytes of the real jump table.",
@@ -56,7 +56,7 @@ CLAIMED = {
  "C18": ("Bounded symbolic histories over the real download queue (Schedule, ReserveBodies, DeliverBodies, CancelBodies, Revoke, ExpireBodies, Results, real prque, peer lacking sets) in FullSync: ghost accounting of every header across task queue / peer requests / done set, strictly ascending gap-free single release with the body matching the transaction root, refusals of unsolicited data, then completion with one honest peer.",
          "Trusted: gosym, z3; Header.Hash / DeriveSha idealised as injective; 6-slot result window (2-slot under 4 headers in the window entry). NOT covered: liveness beyond the completion phase, goroutine layer of downloader.go/fetcher.go, receipts/FastSync, skeleton filling, memory throttling.",
          "solver-based bounded symbolic execution of go/ssa (histories of 3 / 5 operations, 2 / 3 headers, 2 peers)"),
- "C19": ("Scheduler half: the real trie.Sync (NewSync, Missing, Process, schedule, children, commit, Pending) and priority queue over every small source DAG given by a symbolic child table and every response order / repetition / unsolicited delivery within the bound: children complete before parents, Pending()=0 exactly when every reachable node is stored, refusals change nothing, counters never negative, leaves referencing shared raw entries through the leaf callback, nothing stored twice.",
+ "C19": ("Scheduler half: the real trie.Sync (NewSync, Missing, Process, schedule, children, commit, Pending) and priority queue over every small source DAG given by a symbolic child table and every response order / repetition / unsolicited delivery within the bound: children complete before parents, Pending()=0 exactly when every reachable node is stored, refusals change nothing, counters never negative, leaves referencing shared raw entries through the leaf callback, the state sync's own leaf callback scheduling storage, code and delegations of an arbitrary account, nothing stored twice.",
          "Trusted: gosym, z3; decodeNode replaced by a table lookup. NOT covered: that delivered bytes hash to the requested key (keccak in goroutines of triesync.go), state-sync leaf callback, content equality after sync.",
          "solver-based symbolic execution of go/ssa (bv) with symbolic DAG shape and responses"),
  "C20": ("Inductive step over txSortedMap and txList (real container/heap, sort) from an arbitrary invariant-satisfying list with symbolic nonces/prices/gas: representation invariant and functional specs of Put/Forward/Filter/Cap/Remove/Ready/Flatten/Add; pool level: bounded histories (arrival, new head, removal) over the real TxPool bookkeeping with the statement's views asserted after every reorg step.",
